@@ -82,7 +82,8 @@ func exprPool(class string) []string {
 	case "nilfn":
 		return []string{"NilFn(1)"}
 	case "closure":
-		return []string{"all(Xs, {# > 0})", "map(Xs, {# + I})", "filter(Anys, {# != nil})", "count(Os, {.N > 0})"}
+		return []string{"all(Xs, {# > 0})", "map(Xs, {# + I})", "filter(Anys, {# != nil})", "count(Os, {.N > 0})",
+			"map(Xs, {nil})", "filter(Xs, {nil})", "all(Anys, {nil})", "map(Xs, {Any})", "map(Xs, {Nil})", "one(Xs, {Zq})"}
 	case "plus":
 		return []string{"I + I", "I + 1 + J", "F + F", "S + S", "Any + 1"}
 	case "constcall":
